@@ -322,6 +322,11 @@ def build(reg, cfg):
         if 'resolve_contact' in c.name:
             c.prop = PROP; c.name = c.name + ' [as in C07: couplings designate a node of the partner cell by its position index]'
             reg.add(c)
+        elif 'coupling reset loop' in c.name:
+            # a stored partner is only valid for the iteration it was written in (positions change with every division / removal): every live
+            # node must start the contact phase uncoupled, whatever its curvature
+            c.prop = PROP; c.name = c.name + ' [as in C07: no stored partner survives into the next iteration]'
+            reg.add(c)
 
 
 # ------------------------------------------------------------------------------------------------ native replay (population level)
